@@ -38,8 +38,10 @@ Grid(o)      == [i \in 1..Len(o) |-> [name |-> o[i][1], vals |-> o[i][2]]]
 Param(c, n, dflt) == IF \E i \in 1..Len(c) : c[i][1] = n THEN (CHOOSE p \in Range(c) : p[1] = n)[2] ELSE dflt
 \* a text parameter of the fixture: its position in the fixture's list of labels is part of the signature ("None" = the value None)
 LabelIdx(v)  == CASE v = "dry" -> 0 [] v = "ab" -> 1 [] v = "" -> 2 [] v = "x" -> 3 [] v = "wet season" -> 4 [] v = "None" -> 5
-SigOf(c)     == 10000 * LabelIdx(Param(c, "label", "dry")) + 1000 * Param(c, "stop", 3) + 100 * Param(c, "cstart", 0)
-                + 10 * Param(c, "cfreq", 1) + Param(c, "d", 0)
+\* w: a number or tuple of the fixture's table, given as a code that includes its type (the fixture recomputes the code from
+\* the value it receives); knob: a module-level setting of the program at the time of the call
+SigOf(c)     == 1000000 * Ev.knob + 100000 * Param(c, "w", 0) + 10000 * LabelIdx(Param(c, "label", "dry"))
+                + 1000 * Param(c, "stop", 3) + 100 * Param(c, "cstart", 0) + 10 * Param(c, "cfreq", 1) + Param(c, "d", 0)
 \* a fixture with a burn-in phase replaces its collector "c1" at timestep `burn` (if it gets that far) by a fresh one that
 \* records from burn + 1 on: "that execution's own collector records" are those of the collector registered under the name
 \* when the run stops
